@@ -338,7 +338,22 @@ impl<S: WebSocket, T: TimestampProvider> Task<S, T> {
         poll_fn(|cx| self.ws.lock().poll_close_unpin(cx)).await.ok();
         // The above line only closes the `Sink`. Before we terminate connections,
         // we dispatch the remaining frames in the `Source` to our streams.
-        while let Some(Ok(msg)) = poll_fn(|cx| self.ws.lock().poll_next_unpin(cx)).await {
+        // Only a graceful local close waits for the peer to end the `Source`. After a
+        // failure (receive/send error, keepalive timeout) the peer may never answer, so
+        // we only take what is already buffered; otherwise pending calls would never fail.
+        loop {
+            let next = poll_fn(|cx| self.ws.lock().poll_next_unpin(cx));
+            let next = if should_drain_msg_rx {
+                next.await
+            } else {
+                match next.now_or_never() {
+                    Some(next) => next,
+                    None => break,
+                }
+            };
+            let Some(Ok(msg)) = next else {
+                break;
+            };
             debug!("processing remaining message after closure {msg:?}");
             self.process_message(msg, true).await.ok();
         }
